@@ -153,4 +153,10 @@ def convertArgs : List Val → List PType → Option (Res (List Val))
     | some (.panic x) => some (.panic x) | some (.hang x) => some (.hang x) | some .fuel => some .fuel
   | _, _ => some (.err "func" "function expects".toList)
 
+/-- a VARIADIC call `f(fixed…, rest...)`: the leading arguments are converted to the fixed parameter types, EVERY further argument - one by
+    one, a list included - to the element type of the variadic parameter; nothing is spread -/
+def convertVariadic (vs : List Val) (fixed : List PType) (elem : PType) : Option (Res (List Val)) :=
+  if vs.length < fixed.length then some (.err "func" "function expects at least".toList)
+  else convertArgs vs (fixed ++ List.replicate (vs.length - fixed.length) elem)
+
 end Vuego.Call
